@@ -265,6 +265,23 @@ def check_task_done_pairing(c: Ctx) -> None:
                         how = next((s.via + f' at `{p[i - 1].node.text(50)}`' for i, s in enumerate(p) if s.via.startswith('raises') and i > 0), 'normal path')
                         c.fail(cu, f'{qexpr}.task_done() missing after a dequeue in {cu.name} on an exit via {how}', 'the queue\'s unfinished-task count is never decremented: event_queue.join() and wait_until_idle() hang forever', node=cst, witness=c.path(n, p))
 
+    # task_done() only after the dequeued event has been handed to process_event (join() must not return while it is still being processed)
+    for u, call in dequeue_sites(c):
+        st_ = q.stmt_of(call)
+        if not (call_name(call) == 'get_nowait' or isinstance(parent(call), ast.Await)):
+            continue
+        g_ = c.cfg(u)
+        qexpr = U(call.func.value)
+        from sa.cfg import search as _search
+
+        for n in g_.nodes_of(st_):
+            p = _search([(n, ())], is_target=lambda x, d: is_task_done(x, qexpr), is_barrier=lambda x, d: bool(q.node_calls(x, 'process_event')) or (x is not n and x.kind in ('for', 'while') and q.lexically_in(st_, x.ast)),
+                        edge_ok=lambda x, e, d: None if (x is n and e.is_exc) else d)
+            if p is None:
+                c.ok(where(u, st_), f'{qexpr}.task_done() is reached only after process_event was entered for the dequeued event')
+            else:
+                c.fail(u, f'{qexpr}.task_done() reachable before process_event for the dequeued event', 'event_queue.join() (and wait_until_idle) can return while the dequeued event is still being processed', node=st_, witness=c.path(n, p))
+
 
 @ob('C10.5', 'PAIR', 'after every dequeue, every exit (normal, handler-independent exceptions, cancellation at every await incl. waiting for the lock) passes task_done() '
     'exactly on the paths that dequeued (flag-correlated in step)')
